@@ -1155,6 +1155,45 @@ func (c *cliFront) plan(h *heapRun, o *obj, st Step) (*cliCall, string) {
 			files = append(files, filepath.Join(c.dir, "sp_"+n+".fa"))
 		}
 		return &cliCall{argv: []string{"split", "--partition", pf, "-o", filepath.Join(c.dir, "sp_")}, files: files}, ""
+	case "Extract":
+		// `goalign extract`: a coordinate file with one named region (blocks as comma-separated starts / ends, optional
+		// strand column), one output file per region in the output folder
+		ref := abytes(a, "ref")
+		if !needsAlign() || (len(ref) != 0 && !printable(ref)) {
+			return nil, "ref"
+		}
+		var ss, es []string
+		for _, b := range alist(a, "blocks") {
+			m := b.(map[string]interface{})
+			ss, es = append(ss, strconv.Itoa(ai(m, "s"))), append(es, strconv.Itoa(ai(m, "e")))
+		}
+		if len(ss) == 0 {
+			return nil, "blocks"
+		}
+		coords := strings.Join(ss, ",") + "\t" + strings.Join(es, ",")
+		line := coords + "\tex"
+		if ab(a, "minus") {
+			line += "\t-"
+		} else if len(ss)%2 == 0 {
+			line += "\t+"
+		}
+		// the same region once more under another name and on the plus strand, before the one that is read back:
+		// every region of the file gets its own output, none inherits anything from the previous one
+		line = coords + "\tother\n" + line + "\n"
+		cf := filepath.Join(c.dir, "coords.txt")
+		if os.WriteFile(cf, []byte(line), 0o644) != nil {
+			return nil, "coords"
+		}
+		out := filepath.Join(c.dir, "pre_ex_suf.fa")
+		os.Remove(out)
+		argv := []string{"extract", "--coordinates", cf, "-o", c.dir, "--prefix", "pre_", "--suffix", "_suf"}
+		if len(ref) != 0 {
+			argv = append(argv, "--ref-seq="+string(ref))
+		}
+		if ai(a, "code") >= 0 {
+			argv = append(argv, "--translate", strconv.Itoa(ai(a, "code")))
+		}
+		return &cliCall{argv: argv, files: []string{out}}, ""
 	case "SelectSites", "RefSites", "InversePositions":
 		// `subsites`: the listed columns; with --ref-seq the positions are first mapped through the reference
 		// (RefSites), with --reverse complemented (InversePositions) - composed in the specification
